@@ -3,6 +3,8 @@ package logqlmetric
 import (
 	"regexp"
 
+	"github.com/cespare/xxhash/v2"
+
 	"github.com/tdakkota/docker-logql/internal/logql"
 	"github.com/tdakkota/docker-logql/internal/lokiapi"
 )
@@ -25,10 +27,13 @@ type AggregatedLabels interface {
 	AsLokiAPI() lokiapi.LabelSet
 }
 
+// emptyLabels is a set without labels. Its key is the key every other set without labels
+// has (a hash over no pairs), so that vector(x) and an aggregation that keeps no label meet
+// in a binary operation.
 type emptyLabels struct{}
 
 func (l *emptyLabels) By(_ ...logql.Label) AggregatedLabels                      { return l }
 func (l *emptyLabels) Without(_ ...logql.Label) AggregatedLabels                 { return l }
-func (l *emptyLabels) Key() GroupingKey                                          { return 0 }
+func (l *emptyLabels) Key() GroupingKey                                          { return xxhash.Sum64(nil) }
 func (l *emptyLabels) Replace(_, _, _ string, _ *regexp.Regexp) AggregatedLabels { return l }
 func (l *emptyLabels) AsLokiAPI() lokiapi.LabelSet                               { return lokiapi.LabelSet{} }
